@@ -799,7 +799,7 @@ package mcp
 //@   before call handleReadResource#1 assert[C14 same-entry-point-as-the-http-dispatcher] entryOf(request.Method) == 7
 //@   before call handlePing#1 assert[C14 same-entry-point-as-the-http-dispatcher] entryOf(request.Method) == 8
 //@   before call newJSONRPCErrorResponse#2 assert[C14,C03 unserved-method-is-method-not-found] entryOf(request.Method) == 0 && arg1 == ErrCodeMethodNotFound && arg0 == request.ID
-//@   before call newJSONRPCErrorResponse#3 assert[C14,C03,C01 handler-error-is-internal-error-with-the-request-id] err != nil && arg1 == ErrCodeInternal && arg0 == request.ID
+//@   before call newJSONRPCErrorResponse#3 assert[C14,C03,C01,C02 handler-error-is-internal-error-with-the-request-id] err != nil && arg1 == ErrCodeInternal && arg0 == request.ID && (arg2 == err.Error() || arg3 == asany(err.Error()))
 //@   before call newJSONRPCResponse#1 assert[C14,C03,C01 success-envelope-only-without-handler-error-and-with-the-request-id] err == nil && arg0 == request.ID && arg1 == $result
 //@
 //@ func requestHandler.handleRequest
@@ -811,10 +811,10 @@ package mcp
 //@   records lasterr ret1
 //@
 //@ func httpServerHandler.handlePostRequest
-//@   before call respond#1 assert[C14,C15,C03,C01 handler-error-is-internal-error-with-the-request-id] !isnil(lasterr) && arg4 == asany(errorResp) && errorResp.Error.Code == ErrCodeInternal && errorResp.ID == req.ID
+//@   before call respond#1 assert[C14,C15,C03,C01,C02 handler-error-is-internal-error-with-the-request-id] !isnil(lasterr) && arg4 == asany(errorResp) && errorResp.Error.Code == ErrCodeInternal && errorResp.ID == req.ID && errorResp.Error.Message == lasterr.Error()
 //@   before call respond#2 assert[C14,C03 error-object-passed-through] isnil(lasterr) && arg4 == lastres
 //@   before call respond#3 assert[C14,C15,C03,C01 success-envelope-only-without-handler-error-and-with-the-request-id] isnil(lasterr) && jsonrpcResponse.ID == req.ID && jsonrpcResponse.Result == lastres && jsonrpcResponse.JSONRPC == "2.0"
-//@   before call respond#4 assert[C14,C15,C03,C01 handler-error-is-internal-error-with-the-request-id] !isnil(lasterr) && arg4 == asany(errorResp) && errorResp.Error.Code == ErrCodeInternal && errorResp.ID == req.ID
+//@   before call respond#4 assert[C14,C15,C03,C01,C02 handler-error-is-internal-error-with-the-request-id] !isnil(lasterr) && arg4 == asany(errorResp) && errorResp.Error.Code == ErrCodeInternal && errorResp.ID == req.ID && errorResp.Error.Message == lasterr.Error()
 //@   before call respond#5 assert[C14,C03 error-object-passed-through] isnil(lasterr) && arg4 == lastres
 //@   before call respond#6 assert[C14,C15,C03,C01 success-envelope-only-without-handler-error-and-with-the-request-id] isnil(lasterr) && jsonrpcResponse.ID == req.ID && jsonrpcResponse.Result == lastres && jsonrpcResponse.JSONRPC == "2.0"
 //@
@@ -1308,4 +1308,17 @@ package mcp
 //@ func httpServerHandler.cleanupSession
 //@   callers-checked C05, C11
 //@   requires[C05,C11 only-an-ended-session-loses-its-stream-wholesale] !live(sessionID)
+//@
+// C02 — a tool handler's error reaches the caller inside the error message
+//@ func toolManager.handleCallTool
+//@   before call Sprintf#3 assert[C02 the-handlers-error-is-an-operand-of-the-message] len(arg1) == 2 && arg1[1] == asany(err)
+//@   before call return#0 assert[C02,C01 the-handlers-result-is-the-answer] isnil(err) && toolcalls == old(toolcalls) + 1 ==> ret == asany(result)
+//@   before call return#0 assert[C02 a-handler-error-is-answered-with-that-message] !isnil(err) && errMsg != "" ==> istype(ret, *JSONRPCError) && ret.(*JSONRPCError) != nil && ret.(*JSONRPCError).Error.Message == errMsg && ret.(*JSONRPCError).ID == req.ID
+//@
+//@ func promptManager.handleGetPrompt
+//@   before call return#0 assert[C02 a-handler-error-is-answered-with-that-message] !isnil(err) ==> istype(ret, *JSONRPCError) && ret.(*JSONRPCError) != nil && ret.(*JSONRPCError).Error.Message == err.Error() && ret.(*JSONRPCError).ID == req.ID
+//@
+//@ func resourceManager.handleReadResource
+//@   before call return#0 assert[C02 a-handler-error-is-answered-with-that-message] !isnil(err) ==> istype(ret, *JSONRPCError) && ret.(*JSONRPCError) != nil && ret.(*JSONRPCError).Error.Message == err.Error() && ret.(*JSONRPCError).ID == req.ID
+//@   before call return#0 assert[C02 the-handlers-contents-are-the-result] isnil(err) && istype(ret, ReadResourceResult) ==> same(ret.(ReadResourceResult).Contents, contents)
 //@
